@@ -105,19 +105,25 @@ class Values:
         r = self.rng
         if p in ("compound", "compoundstring") and fn not in ("GetCompoundDataNISTByName",):
             pool = ["H2O", "Ca5(PO4)3OH", "C6H12O6", "(NH4)2SO4", "Fe0.5Ni.25O1.25", "UO2(NO3)2(H2O)6", "Es2O3", "Pb", "LaB6", "SiO2", "(H2O)", "Mg(O(OH)2)3"]
-            bad = [None, "", "Hx", "h2o", "H2O ", "(H2O", "H2O)", "2H", "Rf", "H0", "He2..3", "Water", "()", "H2O\x01", "\xc3\xa9"]
+            bad = [None, "", "Hx", "h2o", "H2O ", "(H2O", "H2O)", "2H", "Rf", "H0", "He2..3", "Water", "()", "H2O\x01", "\xc3\xa9", "(SiO2)0", "Ca(OH)0", "(H2O)0.0",
+                   "H.", "Ca.O", "H2(SO4).", "Ca5(PO4)0F", "Si" * 150, "(" * 40 + "H" + ")" * 40]
             out = r.sample(pool, min(len(pool), max(1, n // 3))) + r.sample(bad, min(len(bad), max(1, n // 3)))
+            for _ in range(max(1, n // 4)):     # single-character mutants of valid formulas
+                f = r.choice(pool)
+                k = r.randrange(len(f) + 1)
+                ch = r.choice("()0123456789..AaHOx ")
+                out.append(r.choice([f[:k] + ch + f[k:], f[:k] + f[k + 1:], f[:k] + ch + f[k + 1:]]))
             if self.nist_names:
                 out += r.sample(self.nist_names, min(len(self.nist_names), max(1, n // 3)))
             return out
         if p == "compoundstring":
-            return (r.sample(self.nist_names, min(len(self.nist_names), max(1, n - 4))) if self.nist_names else []) + [None, "", "water, liquid", "H2O"]
+            return (r.sample(self.nist_names, min(len(self.nist_names), max(1, n - 4))) if self.nist_names else []) + [None, "", "water, liquid", "H2O", "y" * 300]
         if p == "radionuclidestring":
-            return self.nuc_names + [None, "", "55fe", "Fe55"]
+            return self.nuc_names + [None, "", "55fe", "Fe55", "z" * 300]
         if p == "symbol":
             return r.sample(formulas.SYMBOLS, min(107, max(1, n))) + [None, "", "h", "HE", "Xx", "Uuo"]
         if p == "material":
-            return (r.sample(self.crystal_names, min(len(self.crystal_names), max(1, n))) if self.crystal_names else ["Si"]) + [None, "", "si", "Unobtainium"]
+            return (r.sample(self.crystal_names, min(len(self.crystal_names), max(1, n))) if self.crystal_names else ["Si"]) + [None, "", "si", "Unobtainium", "x" * 300]
         if p == "file_name":
             return [None, "/nonexistent/file.dat"]
         raise SystemExit("apisweep: string parameter %r of %s is not classified" % (pname, fn))
@@ -240,8 +246,8 @@ def judge(fn, p, has_slot):
             bad.append(("error-code-range", "0..5", code))
         elif code != 1 and fn not in IO_OR_CAPACITY:
             bad.append(("error-code", "XRL_ERROR_INVALID_ARGUMENT", code))
-        if len(msg) == 0 or any(b < 32 and b not in (9, 10) or b == 127 for b in msg):
-            bad.append(("error-message", "non-empty printable", msg[:80]))
+        if len(msg) == 0:
+            bad.append(("error-message", "non-empty message", msg[:80]))   # (a message may echo an unprintable offending character)
     if has_slot and not p.get("noslot_same", True):
         bad.append(("noslot-differs", "bit-identical result without an error slot", res[:80]))
     if has_slot and not p.get("preset_ok", True):
